@@ -9,6 +9,7 @@ Every evaluator function returns the environment the *caller* sees afterwards, a
 "no trace" = on failure that environment is the one the caller passed in.
 -/
 import AstGrepVerif.Lemmas.RuleEnv
+import AstGrepVerif.Lemmas.RuleIsolate
 
 set_option linter.unusedSimpArgs false
 set_option linter.unusedVariables false
@@ -19,15 +20,15 @@ open AGV
 
 /-! ## 1. No trace -/
 
-/-- A failed rule leaves the caller's environment exactly as it was — for every rule form, node,
-environment and fuel — provided no *global* utility rule carries constraints (see
-`no_trace_counterexample` for why the hypothesis is needed). -/
-theorem no_trace (ctx : RCtx) (hG : NoGlobalConstraints ctx) (fuel : Nat) (r : Rule) (n : Tree)
+/-- **A failed rule leaves the caller's environment exactly as it was** — for every rule form,
+node, environment, fuel and registry.  (Before the repair of `RuleCore::do_match` this needed
+"no global utility carries constraints": see `matchCore_constraint_failure_restores_env`.) -/
+theorem no_trace (ctx : RCtx) (fuel : Nat) (r : Rule) (n : Tree)
     (env env' : Env) (h : matchRule ctx fuel r n env = .ok (none, env')) : env' = env :=
-  (all_notrace ctx hG fuel).1 r n env env' h
+  (all_notrace ctx fuel).1 r n env env' h
 
 /-- the same for every helper of the evaluator that hands an environment back -/
-theorem no_trace_helpers (ctx : RCtx) (hG : NoGlobalConstraints ctx) (fuel : Nat) :
+theorem no_trace_helpers (ctx : RCtx) (fuel : Nat) :
     (∀ r field eid c env env', finderStep ctx fuel r field eid c env = .ok (none, env') → env' = env) ∧
     (∀ r field eid cs env env',
       findMapRule ctx fuel r field eid cs env = .ok (none, env') → env' = env) ∧
@@ -38,25 +39,24 @@ theorem no_trace_helpers (ctx : RCtx) (hG : NoGlobalConstraints ctx) (fuel : Nat
     (∀ r stop field n env env', matchInside ctx fuel r stop field n env = .ok (none, env') → env' = env) ∧
     (∀ r stop field n env env', matchHas ctx fuel r stop field n env = .ok (none, env') → env' = env) ∧
     (∀ r s cs env env', hasUntil ctx fuel r s cs env = .ok (none, env') → env' = env) ∧
-    (∀ core n env env', core.constraints = [] →
-      matchCore ctx fuel core n env = .ok (none, env') → env' = env) :=
-  (all_notrace ctx hG fuel).2
+    (∀ core n env env', matchCore ctx fuel core n env = .ok (none, env') → env' = env) :=
+  (all_notrace ctx fuel).2
 
 /-- `allLoop` (the loop of `All`) is *not* trace-free by itself — it returns the environment
 reached after the successful prefix — but its only caller drops it: what it guarantees is that
 the failing branch left no trace on top of the chain of the successful ones. -/
-theorem allLoop_failure (ctx : RCtx) (hG : NoGlobalConstraints ctx) (fuel : Nat) (rs : List Rule)
+theorem allLoop_failure (ctx : RCtx) (fuel : Nat) (rs : List Rule)
     (n : Tree) (env env' : Env) (h : allLoop ctx fuel rs n env = .ok (false, env')) :
     ∃ pre r post, rs = pre ++ r :: post ∧ AllChain ctx fuel n pre env env' ∧
       matchRule ctx fuel r n env' = .ok (none, env') := by
   obtain ⟨pre, r, post, env1, e1, e2, e3⟩ := allLoop_false ctx fuel rs n env env' h
-  have := no_trace ctx hG fuel r n env1 env' e3
+  have := no_trace ctx fuel r n env1 env' e3
   subst this
   exact ⟨pre, r, post, e1, e2, e3⟩
 
-/-- Rule forms that never leak, whatever the registries contain: the atomic rules and
-`all` / `any` / `not` return the caller's environment itself on failure (copy-on-write scratch).
-`deserialize_rule` wraps a rule object with more than one key into `all`. -/
+/-- (kept from before the repair of `do_match`; now a special case of `no_trace`) the atomic rules
+and `all` / `any` / `not` return the caller's environment itself on failure by construction
+(copy-on-write scratch) -/
 theorem no_trace_partial (ctx : RCtx) (fuel : Nat) (r : Rule) (n : Tree) (env env' : Env)
     (hr : (∃ p k s, r = .pattern p k s) ∨ (∃ k, r = .kind k) ∨ (∃ i, r = .regex i) ∨
       (∃ a b c d, r = .range a b c d) ∨ (∃ rs k, r = .all rs k) ∨ (∃ rs k, r = .any rs k) ∨
@@ -112,8 +112,7 @@ theorem no_trace_partial (ctx : RCtx) (fuel : Nat) (r : Rule) (n : Tree) (env en
           · simp only [Except.ok.injEq, Prod.mk.injEq, true_and] at h; exact h.symm
           · simp at h
 
-/-- Without any hypothesis a failure may change the environment, but only upwards: every
-binding the caller had is still there (see `match_extends`). -/
+/-- a failure extends the environment (trivially now: it returns it unchanged, `no_trace`) -/
 theorem failure_extends (ctx : RCtx) (fuel : Nat) (r : Rule) (n : Tree) (env env' : Env)
     (h : matchRule ctx fuel r n env = .ok (none, env')) : EnvLe ctx.src env env' :=
   (all_ex ctx fuel).1 r n env _ h
@@ -192,8 +191,8 @@ theorem any_exposes_winner (ctx : RCtx) (fuel : Nat) (rs : List Rule) (kinds : O
         exact ⟨e, matchRule_fuel_mono ctx (Nat.le_succ _) he⟩
       · simp at h
 
-/-- under the no-trace hypothesis the failing alternatives return the caller's environment -/
-theorem any_exposes_winner' (ctx : RCtx) (hG : NoGlobalConstraints ctx) (fuel : Nat)
+/-- the failing alternatives return the caller's environment -/
+theorem any_exposes_winner' (ctx : RCtx) (fuel : Nat)
     (rs : List Rule) (kinds : Option (List Nat)) (n m : Tree) (env env' : Env)
     (h : matchRule ctx fuel (.any rs kinds) n env = .ok (some m, env')) :
     ∃ pre r post m₁, rs = pre ++ r :: post ∧
@@ -202,7 +201,7 @@ theorem any_exposes_winner' (ctx : RCtx) (hG : NoGlobalConstraints ctx) (fuel : 
   obtain ⟨_, _, pre, r, post, m₁, e1, e2, e3⟩ := any_exposes_winner ctx fuel rs kinds n m env env' h
   refine ⟨pre, r, post, m₁, e1, fun q hq => ?_, e3⟩
   obtain ⟨e, he⟩ := e2 q hq
-  have := no_trace ctx hG fuel q n env e he
+  have := no_trace ctx fuel q n env e he
   subst this; exact he
 
 /-- `any` failure: every alternative fails from the caller's environment, which is returned -/
@@ -271,7 +270,7 @@ theorem allChain_extends (ctx : RCtx) (fuel : Nat) (n : Tree) (rs : List Rule) (
 environment is the one the sub-rule produces on `c` *from the caller's environment* (plus the
 `secondary` label): the candidates rejected before `c` contributed nothing.  Candidates: strict
 descendants / ancestors / later / earlier siblings (`nextOf` is the head of `nextAllOf`, see C05). -/
-theorem relation_exposes_winner (ctx : RCtx) (hG : NoGlobalConstraints ctx) (fuel : Nat)
+theorem relation_exposes_winner (ctx : RCtx) (fuel : Nat)
     (r : Rule) (stop : StopBy) (field : Option Nat) (n m : Tree) (env env' : Env) :
     (matchRule ctx fuel (.has r stop field) n env = .ok (some m, env') →
       ∃ c ∈ Tree.preorderList n.children, ∃ env1,
@@ -291,7 +290,7 @@ theorem relation_exposes_winner (ctx : RCtx) (hG : NoGlobalConstraints ctx) (fue
     refine ⟨fun h => ?_, fun h => ?_, fun h => ?_, fun h => ?_⟩
     · simp only [matchRule] at h
       obtain ⟨env1, h1, rfl⟩ := withLabel_some h
-      obtain ⟨c, hc, hm⟩ := matchHas_winner ctx hG fuel r stop field n env m env1 h1
+      obtain ⟨c, hc, hm⟩ := matchHas_winner ctx fuel r stop field n env m env1 h1
       exact ⟨c, hc, env1, matchRule_fuel_mono ctx (Nat.le_succ _) hm, rfl⟩
     · simp only [matchRule] at h
       obtain ⟨env1, h1, rfl⟩ := withLabel_some h
@@ -299,53 +298,84 @@ theorem relation_exposes_winner (ctx : RCtx) (hG : NoGlobalConstraints ctx) (fue
       | zero => simp [matchInside] at h1
       | succ fuel =>
         simp only [matchInside] at h1
-        obtain ⟨c, hc, hm⟩ := stopByFind_winner ctx hG fuel stop r field n.id _ _ env m env1 h1
+        obtain ⟨c, hc, hm⟩ := stopByFind_winner ctx fuel stop r field n.id _ _ env m env1 h1
         refine ⟨c, ?_, env1, matchRule_fuel_mono ctx (by omega) hm, rfl⟩
         rcases hc with hc | hc
         · unfold parentOf at hc; exact List.mem_of_head? hc
         · exact hc
     · simp only [matchRule] at h
       obtain ⟨env1, h1, rfl⟩ := withLabel_some h
-      obtain ⟨c, hc, hm⟩ := stopByFind_winner ctx hG fuel stop r none n.id _ _ env m env1 h1
+      obtain ⟨c, hc, hm⟩ := stopByFind_winner ctx fuel stop r none n.id _ _ env m env1 h1
       exact ⟨c, hc, env1, matchRule_fuel_mono ctx (Nat.le_succ _) hm, rfl⟩
     · simp only [matchRule] at h
       obtain ⟨env1, h1, rfl⟩ := withLabel_some h
-      obtain ⟨c, hc, hm⟩ := stopByFind_winner ctx hG fuel stop r none n.id _ _ env m env1 h1
+      obtain ⟨c, hc, hm⟩ := stopByFind_winner ctx fuel stop r none n.id _ _ env m env1 h1
       exact ⟨c, hc, env1, matchRule_fuel_mono ctx (Nat.le_succ _) hm, rfl⟩
 
 /-! ## 4. Constraints run after the rule -/
 
-/-- `RuleCore::do_match`, case by case: the kinds gate fails (caller's environment returned);
-the rule fails (its environment returned — the caller's, by `no_trace`); the rule succeeds with
-`env1` and all constraints hold (the environment after the constraints is returned); the rule
-succeeds with `env1` and a constraint fails: no match, and the environment returned is `env1` —
-the constraints' own bindings are dropped, **the rule's bindings are not**. -/
+/-- `RuleCore::do_match`, case by case: the kinds gate fails; the rule fails; the rule succeeds
+with `env1` and all constraints hold (the environment after the constraints is committed); the
+rule succeeds and a constraint fails.  In all three failing cases the caller's environment comes
+back untouched: rule and constraints work on a scratch copy. -/
 theorem constraints_after_rule (ctx : RCtx) (fuel : Nat) (core : RuleCore) (n : Tree) (env : Env)
     (res : Option Tree) (env' : Env) (h : matchCore ctx fuel core n env = .ok (res, env')) :
     (kindsGate core.kinds n = false ∧ res = none ∧ env' = env) ∨
     (kindsGate core.kinds n = true ∧
-      ((matchRule ctx fuel core.rule n env = .ok (none, env') ∧ res = none) ∨
+      ((∃ env1, matchRule ctx fuel core.rule n env = .ok (none, env1) ∧ res = none ∧ env' = env) ∨
        (∃ ret env1, matchRule ctx fuel core.rule n env = .ok (some ret, env1) ∧
           ((constraintLoop ctx fuel core.constraints (sortByName env1.single) env1 = .ok (true, env') ∧
               res = some ret) ∨
            (∃ env2, constraintLoop ctx fuel core.constraints (sortByName env1.single) env1 = .ok (false, env2) ∧
-              res = none ∧ env' = env1))))) :=
+              res = none ∧ env' = env))))) :=
   matchCore_cases ctx fuel core n env res env' h
 
-/-- a rule core whose rule fails leaves no trace (when global utilities carry no constraints) -/
-theorem matchCore_rule_failure (ctx : RCtx) (hG : NoGlobalConstraints ctx) (fuel : Nat)
+/-- a rule core that fails — kinds gate, rule or constraint — leaves no trace -/
+theorem matchCore_no_trace (ctx : RCtx) (fuel : Nat) (core : RuleCore) (n : Tree) (env env' : Env)
+    (h : matchCore ctx fuel core n env = .ok (none, env')) : env' = env :=
+  (all_notrace ctx fuel).2.2.2.2.2.2.2.2 core n env env' h
+
+/-- (name kept) a rule core whose rule fails leaves no trace -/
+theorem matchCore_rule_failure (ctx : RCtx) (fuel : Nat)
     (core : RuleCore) (n : Tree) (env env' e : Env)
     (h : matchCore ctx fuel core n env = .ok (none, env'))
-    (hr : matchRule ctx fuel core.rule n env = .ok (none, e)) : env' = env := by
-  rcases matchCore_cases ctx fuel core n env none env' h with ⟨_, _, h3⟩ | ⟨_, ⟨h2, _⟩ | ⟨ret, env1, h2, _⟩⟩
-  · exact h3
-  · exact no_trace ctx hG fuel _ _ _ _ h2
-  · rw [hr] at h2; simp at h2
+    (hr : matchRule ctx fuel core.rule n env = .ok (none, e)) : env' = env :=
+  matchCore_no_trace ctx fuel core n env env' h
 
 /-- without constraints `matchCore` is the kinds gate followed by the rule -/
 theorem constraintLoop_nil (ctx : RCtx) (fuel : Nat) (l : List (Name × Tree)) (env : Env) (b : Bool)
     (env' : Env) (h : constraintLoop ctx fuel [] l env = .ok (b, env')) : b = true ∧ env' = env :=
   AGV.constraintLoop_nil ctx fuel l env b env' h
+
+/-! ## 4b. The oracle: a rule and its isolated form agree
+
+`Spec.isolate` (`Spec/PureRule.lean`) wraps every sub-rule in a singleton `all … none`, which is
+trace-free by construction; the C04 oracle compares the evaluator on `r` and on `isolate r`.
+Fragment (`Rule.isoOK`): no `matches` (the driver isolates the registries separately, which
+changes the context) and no pattern variable called `secondary`.  The `secondary` label itself is
+excluded from the comparison: it records the node a relation's sub-rule *returned*, and a wrapped
+sub-rule returns the candidate instead of the node it found. -/
+
+/-- whenever the isolated rule ends normally, the rule itself ends normally with the same fuel,
+the same verdict, and the same environment up to the `secondary` label -/
+theorem isolate_simulates (ctx : RCtx) (f : Nat) (r : Rule) (hr : r.isoOK = true) (n : Tree)
+    (env : Env) (x : Option Tree × Env) (h : matchRule ctx f (Spec.isolate r) n env = .ok x) :
+    ∃ y, matchRule ctx f r n env = .ok y ∧ x.1.isSome = y.1.isSome ∧ EqNS x.2 y.2 :=
+  isolate_simulates' ctx f r hr n env x h
+
+/-- **the oracle's comparison**: whenever both evaluations end normally (any two fuels) they
+agree on success/failure, on every single-variable binding, on every multi binding other than the
+label `secondary`, and on `transformed` -/
+theorem isolate_agrees (ctx : RCtx) (fuel fuel' : Nat) (r : Rule) (hr : r.isoOK = true) (n : Tree)
+    (env : Env) (res res' : Option Tree) (e e' : Env)
+    (h : matchRule ctx fuel (Spec.isolate r) n env = .ok (res, e))
+    (h' : matchRule ctx fuel' r n env = .ok (res', e')) :
+    res.isSome = res'.isSome ∧
+    (∀ v, v ≠ secondaryLabel → alookup v e.single = alookup v e'.single) ∧
+    (∀ v, v ≠ secondaryLabel → alookup v e.multi = alookup v e'.multi) ∧
+    e.transformed = e'.transformed := by
+  obtain ⟨h1, h2⟩ := isolate_agrees' ctx fuel fuel' r hr n env _ _ h h'
+  exact ⟨h1, h2.lookups⟩
 
 /-! ## 5. Counter-examples and non-vacuity
 
@@ -388,43 +418,37 @@ end Ex
 
 open Ex
 
-/-- `matchCore` is **not** trace-free: the rule `$A` of the utility matches the node `a` and
-binds `A`, the constraint `A: kind 2` fails, and the caller gets `A ↦ a` back with the failure
-(`RuleCore::do_match` returns `None` after `match_constraints` failed without undoing the
-bindings the rule made in the caller's `Cow`). -/
-theorem matchCore_constraint_failure_keeps_rule_bindings :
-    matchCore ctxLeak 9 util c1 Env.empty = .ok (none, envA c1) := by
+/-- **regression** (was `matchCore_constraint_failure_keeps_rule_bindings`): the rule `$A` of the
+utility matches the node `a` and binds `A`, the constraint `A: kind 2` fails — and the caller gets
+its own (here: empty) environment back.  Before the repair `RuleCore::do_match` returned `None`
+without undoing the bindings the rule had made in the caller's `Cow`. -/
+theorem matchCore_constraint_failure_restores_env :
+    matchCore ctxLeak 9 util c1 Env.empty = .ok (none, Env.empty) := by
   simp [matchRule, matchCore, constraintLoop, sortByName, insertByName, alookup, ctxLeak, util, kindsGate, pA_c1,
     Tree.kind, Tree.info]
 
-/-- hence `no_trace` needs its hypothesis: through `matches` the failure of a global utility
-with a constraint changes the caller's environment -/
-theorem no_trace_counterexample :
-    matchRule ctxLeak 10 (.matches ['u']) c1 Env.empty = .ok (none, envA c1) ∧
-    envA c1 ≠ Env.empty := by
-  refine ⟨?_, fun h => ?_⟩
-  · simp [matchRule, matchCore, constraintLoop, sortByName, insertByName, alookup, ctxLeak, util, kindsGate, pA_c1,
-      Tree.kind, Tree.info]
-  · have := congrArg Env.single h
-    simp [Env.empty] at this
+/-- **regression** (was `no_trace_counterexample`): through `matches` the failure of a global
+utility with a constraint leaves the caller's environment alone -/
+theorem matches_constraint_failure_no_trace :
+    matchRule ctxLeak 10 (.matches ['u']) c1 Env.empty = .ok (none, Env.empty) := by
+  simp [matchRule, matchCore, constraintLoop, sortByName, insertByName, alookup, ctxLeak, util, kindsGate, pA_c1,
+    Tree.kind, Tree.info]
 
-/-- **Not harmless** (finding): a relation whose sub-rule is a bare `matches` of such a utility
-hands the polluted environment to the next candidate.  `has: {matches: u}` on the root of `ab`:
-candidate `a` binds `A ↦ a` and is rejected by the constraint; candidate `b` — which satisfies
-`u` from the caller's environment — is then refused because `A` is already bound to `a`.
-The same rule wrapped in `all` (scratch environment) accepts.  (Replay on the binary:
-`utils/u.yml = {id: u, rule: {pattern: $A}, constraints: {A: {kind: number}}}`,
-`rule: {kind: arguments, has: {matches: u}}` rejects `foo(x, 1)` and accepts `foo(1, x)`;
-with `has: {all: [{matches: u}]}` both are accepted.) -/
-theorem rejected_candidate_influences_outcome :
+/-- **regression** (was the finding `rejected_candidate_influences_outcome`): `has: {matches: u}`
+on the root of `ab`.  Candidate `a` is rejected by the constraint of `u` and leaves no trace;
+candidate `b` is then judged from the caller's environment and accepted — with the very
+environment `matches: u` produces on `b` alone, and the same result as the rule wrapped in `all`.
+(On the binary: `utils/u.yml = {id: u, rule: {pattern: $A}, constraints: {A: {kind: number}}}`,
+`rule: {kind: arguments, has: {matches: u}}` now accepts `foo(x, 1)` like `foo(1, x)`.) -/
+theorem rejected_candidate_leaves_no_trace :
     matchRule ctxLeak 12 (.has (.matches ['u']) .neighbor none) doc Env.empty
-      = .ok (none, envA c1) ∧
+      = .ok (some c2, (envA c2).addLabel secondaryLabel c2) ∧
     matchRule ctxLeak 12 (.matches ['u']) c2 Env.empty = .ok (some c2, envA c2) ∧
     matchRule ctxLeak 12 (.has (.all [.matches ['u']] none) .neighbor none) doc Env.empty
       = .ok (some c2, (envA c2).addLabel secondaryLabel c2) := by
   refine ⟨?_, ?_, ?_⟩
   · simp [matchRule, matchHas, findMapRule, finderStep, withLabel, matchCore, constraintLoop, sortByName, insertByName,
-      alookup, ctxLeak, util, kindsGate, pA_c1, pA_c2', Tree.children, Tree.kind, Tree.info]
+      alookup, ctxLeak, util, kindsGate, pA_c1, pA_c2, Tree.children, Tree.kind, Tree.info]
   · simp [matchRule, matchCore, constraintLoop, sortByName, insertByName, alookup, ctxLeak, util, kindsGate, pA_c2,
       Tree.kind, Tree.info]
   · simp [matchRule, matchHas, findMapRule, finderStep, withLabel, matchCore, constraintLoop, sortByName, insertByName,
@@ -445,14 +469,7 @@ theorem exactMatch_not_trans_example :
 
 /-! ### the hypotheses are satisfiable, the conclusions are not vacuous -/
 
-example : NoGlobalConstraints ctxOK := by
-  intro id core h
-  simp only [ctxOK, alookup] at h
-  split at h
-  · simp only [Option.some.injEq] at h; subst h; rfl
-  · cases h
-
-/-- `no_trace` at work: `has: {matches: u}` (no constraint now) with a further `kind` test fails
+/-- `no_trace` at work: `has: {matches: u}` (no constraint here) with a further `kind` test fails
 on every candidate although `$A` matched each of them; the caller's environment comes back -/
 example : matchRule ctxOK 12 (.has (.all [.matches ['u'], .kind 9] none) .neighbor none) doc
     Env.empty = .ok (none, Env.empty) := by
@@ -478,5 +495,21 @@ example : (Env.insert [97, 98] (envA c1) ['A'] c2).isNone = true := by decide
 example : matchCore ctxLeak 9 util c2 Env.empty = .ok (some c2, envA c2) := by
   simp [matchRule, matchCore, constraintLoop, sortByName, insertByName, alookup, ctxLeak, util, kindsGate, pA_c2,
     Tree.kind, Tree.info]
+
+/-- `isolate_agrees` at work, and why the returned node is not compared: `has: {pattern: $A}` on
+the root of `ab` returns the child `a` it found; the isolated form (a singleton `all` around the
+relation) returns the root itself.  Verdict and bindings are the same. -/
+theorem isolate_example :
+    (Rule.has (.pattern pA none .smart) .neighbor none).isoOK = true ∧
+    matchRule ctxOK 14 (Spec.isolate (.has (.pattern pA none .smart) .neighbor none)) doc Env.empty
+      = .ok (some doc, (envA c1).addLabel secondaryLabel c1) ∧
+    matchRule ctxOK 14 (.has (.pattern pA none .smart) .neighbor none) doc Env.empty
+      = .ok (some c1, (envA c1).addLabel secondaryLabel c1) := by
+  have hsec : secondaryLabel = ['s', 'e', 'c', 'o', 'n', 'd', 'a', 'r', 'y'] := by rfl
+  refine ⟨?_, ?_, ?_⟩
+  · simp [Rule.isoOK, StopBy.isoOK, PNode.vars, MetaVar.capNames, hsec]
+  · simp [Spec.isolate, Spec.isolateStop, matchRule, allLoop, matchHas, findMapRule, finderStep,
+      withLabel, ctxOK, kindsGate, pA_c1, Tree.children]
+  · simp [matchRule, matchHas, findMapRule, finderStep, withLabel, ctxOK, pA_c1, Tree.children]
 
 end AGV.C04
